@@ -305,9 +305,40 @@ impl<'a> GeneratorState<'a> {
             ExprType::AbsoluteX(varname) => self.compiler_state.get_variable(varname),
             _ => unreachable!()
         };
+        // Cartridge RAM with separate read and write ports can't take read-modify-write
+        // instructions: shift through the accumulator instead
+        let split_ports = match v.memory {
+#[cfg(feature = "atari2600")]
+            VariableMemory::Superchip | VariableMemory::MemoryOnChip(_) => true,
+            _ => false,
+        };
+        let signed = v.signed;
         if let ExprType::Immediate(value) = right {
             if self.acc_in_use { self.sasm(PHA)?; }
             for _ in 0..*value {
+                if split_ports {
+                    if let Operation::Bls(_) = op {
+                        self.asm(LDA, left, pos, false)?;
+                        self.sasm(ASL)?;
+                        self.asm(STA, left, pos, false)?;
+                        self.asm(LDA, left, pos, true)?;
+                        self.sasm(ROL)?;
+                        self.asm(STA, left, pos, true)?;
+                    } else {
+                        self.asm(LDA, left, pos, true)?;
+                        if signed {
+                            self.asm(CMP, &ExprType::Immediate(0x80), pos, false)?;
+                            self.sasm(ROR)?;
+                        } else {
+                            self.sasm(LSR)?;
+                        }
+                        self.asm(STA, left, pos, true)?;
+                        self.asm(LDA, left, pos, false)?;
+                        self.sasm(ROR)?;
+                        self.asm(STA, left, pos, false)?;
+                    }
+                    continue;
+                }
                 if let Operation::Bls(_) = op {
                     self.asm(ASL, left, pos, false)?;
                     self.asm(ROL, left, pos, true)?;
